@@ -11,6 +11,9 @@
 //	          built by the REAL main.go:newGrpcProxy (driver /repo/verif_c16_test.go, run with go test)
 //	CSession  the same calls as one history with table changes and the real 5 s cleanup
 //	          ticks in between; observable = connections begun / ended at every backend
+//	CHistoryX one more such history in which backends are restarted on their address (graceful
+//	          stop = GOAWAY) or reset the connections they accepted while they stay in the table:
+//	          the pooled channel has to connect again for the next call (Model/GrpcTransport.v)
 package main
 
 import (
@@ -123,6 +126,103 @@ type backend struct {
 	srv    *grpc.Server
 	begins int64
 	ends   int64
+	pump   *acceptPump
+	child  *childListener
+	opts   []grpc.ServerOption
+}
+
+// The backend's socket stays bound for the life of the harness: one goroutine accepts on it,
+// the grpc.Server of the moment reads the accepted connections through a childListener.  That
+// way a backend can be restarted on the same address (graceful stop = GOAWAY, then a new
+// server) without giving the port away, and can reset the connections it has accepted.
+type acceptPump struct {
+	ln net.Listener
+	ch chan net.Conn
+}
+
+func (p *acceptPump) run() {
+	for {
+		c, err := p.ln.Accept()
+		if err != nil {
+			close(p.ch)
+			return
+		}
+		p.ch <- c
+	}
+}
+
+type childListener struct {
+	p     *acceptPump
+	done  chan struct{}
+	once  sync.Once
+	mu    sync.Mutex
+	conns []net.Conn
+}
+
+func (c *childListener) Accept() (net.Conn, error) {
+	select {
+	case <-c.done:
+		return nil, net.ErrClosed
+	default:
+	}
+	select {
+	case <-c.done:
+		return nil, net.ErrClosed
+	case conn, ok := <-c.p.ch:
+		if !ok {
+			return nil, net.ErrClosed
+		}
+		c.mu.Lock()
+		c.conns = append(c.conns, conn)
+		c.mu.Unlock()
+		return conn, nil
+	}
+}
+func (c *childListener) Close() error   { c.once.Do(func() { close(c.done) }); return nil }
+func (c *childListener) Addr() net.Addr { return c.p.ln.Addr() }
+
+func (b *backend) serve() {
+	b.child = &childListener{p: b.pump, done: make(chan struct{})}
+	b.srv = grpc.NewServer(b.opts...)
+	go b.srv.Serve(b.child)
+}
+
+// resetConns closes every connection the backend has accepted (as a network reset or a crash
+// of the peer would); it keeps listening.
+func (b *backend) resetConns() {
+	b.child.mu.Lock()
+	conns := b.child.conns
+	b.child.conns = nil
+	b.child.mu.Unlock()
+	for _, c := range conns {
+		c.Close()
+	}
+}
+
+// restart stops the backend's server gracefully (GOAWAY to every client, as a server retiring
+// its connections or shutting down for a deployment does) and starts a new one on the same address.
+func (b *backend) restart() {
+	old := b.srv
+	done := make(chan struct{})
+	go func() { old.GracefulStop(); close(done) }()
+	select {
+	case <-done:
+	case <-time.After(2 * time.Second):
+		old.Stop()
+	}
+	b.serve()
+}
+
+// quiet waits until every connection begun at the backend has ended
+func (b *backend) quiet(d time.Duration) bool {
+	deadline := time.Now().Add(d)
+	for time.Now().Before(deadline) {
+		if atomic.LoadInt64(&b.begins) == atomic.LoadInt64(&b.ends) {
+			return true
+		}
+		time.Sleep(time.Millisecond)
+	}
+	return false
 }
 
 var (
@@ -229,8 +329,10 @@ func startBackend(idx int, secure bool) *backend {
 		b.url = "grpcs://" + b.addr
 		opts = append(opts, grpc.Creds(credentials.NewTLS(&tls.Config{Certificates: []tls.Certificate{selfSigned()}})))
 	}
-	b.srv = grpc.NewServer(opts...)
-	go b.srv.Serve(ln)
+	b.opts = opts
+	b.pump = &acceptPump{ln: ln, ch: make(chan net.Conn)}
+	go b.pump.run()
+	b.serve()
 	return b
 }
 
@@ -1367,7 +1469,7 @@ func session(run *vh.Run, r *rand.Rand, backends []*backend, tlsBackend *backend
 		upT      string
 		mdT      string
 	}
-	doOne := func(cc *grpc.ClientConn, tbl route.Table, txt string, unreachable map[string]bool, calls int, forceMethod string) (res result, ok bool) {
+	doOne := func(r *rand.Rand, cc *grpc.ClientConn, tbl route.Table, txt string, unreachable map[string]bool, calls int, forceMethod string) (res result, ok bool) {
 		kind := r.Intn(6)
 		method := methodPool[r.Intn(len(methodPool))]
 		if r.Intn(16) == 0 {
@@ -1489,6 +1591,7 @@ func session(run *vh.Run, r *rand.Rand, backends []*backend, tlsBackend *backend
 	steps = append(steps, vh.App("HSetTable", tableCoq(curTbl)))
 	obs = append(obs, observe())
 
+	tickTerm := "HTick"
 	awaitTick := func() {
 		next := t0.Add(time.Duration(ticks+1) * period)
 		time.Sleep(time.Until(next.Add(500 * time.Millisecond)))
@@ -1513,7 +1616,7 @@ func session(run *vh.Run, r *rand.Rand, backends []*backend, tlsBackend *backend
 			time.Sleep(10 * time.Millisecond)
 		}
 		time.Sleep(30 * time.Millisecond)
-		steps = append(steps, "HTick")
+		steps = append(steps, tickTerm)
 		obs = append(obs, observe())
 		ssample = append(ssample, "tick")
 	}
@@ -1537,7 +1640,7 @@ func session(run *vh.Run, r *rand.Rand, backends []*backend, tlsBackend *backend
 			continue
 		}
 		calls++
-		res, ok := doOne(callers[r.Intn(len(callers))], curTbl, curTxt, unreachablePlain, calls, "")
+		res, ok := doOne(r, callers[r.Intn(len(callers))], curTbl, curTxt, unreachablePlain, calls, "")
 		if !ok {
 			continue
 		}
@@ -1567,6 +1670,142 @@ func session(run *vh.Run, r *rand.Rand, backends []*backend, tlsBackend *backend
 	run.Add("session", vh.App("CHistory", vh.Bool(noglob), vh.Bool(false), downTerm, vh.List(steps), vh.List(obs)),
 		map[string]interface{}{"steps": len(steps), "ticks": ticks - startTicks, "first": ssample[:min(len(ssample), 40)]})
 
+	// ---- backends that lose their connections while they stay in the table ----
+	// The pooled *grpc.ClientConn is a channel, not a connection: when the backend is restarted
+	// on the same address (graceful stop: GOAWAY) or the connections it accepted are reset, the
+	// channel goes Idle, stays pooled, and the next call for that backend has to connect again --
+	// long after the call that created the channel has ended.  One more history on the same
+	// proxy (its pool is empty after the last tick), with its own random source; the calls are
+	// CCall cases as well.  Model: Model/GrpcTransport.v (XLose).
+	{
+		xr := rand.New(rand.NewSource(run.Seed*7919 + 16))
+		for i, b := range backends {
+			b.quiet(2 * time.Second)
+			base[i] = [2]int64{atomic.LoadInt64(&b.begins), atomic.LoadInt64(&b.ends)}
+		}
+		steps, obs, ssample = nil, nil, nil
+		tickTerm = "(XH HTick)"
+		genX := func() (route.Table, string) {
+			_, txt := genTable(xr, burls, 6, true)
+			return setTable(txt), txt
+		}
+		curTbl, curTxt = genX()
+		steps = append(steps, vh.App("XH", vh.App("HSetTable", tableCoq(curTbl))))
+		obs = append(obs, observe())
+		lostSince := map[string]bool{} // backends that lost their connections and were not reached since
+		lastServed := -1
+		connected := func() []int {
+			var out []int
+			for i, b := range backends {
+				if atomic.LoadInt64(&b.begins) > atomic.LoadInt64(&b.ends) {
+					out = append(out, i)
+				}
+			}
+			return out
+		}
+		lose := func(i int, graceful bool) {
+			b := backends[i]
+			kind := "reset"
+			if graceful {
+				kind = "restart"
+				b.restart()
+			} else {
+				b.resetConns()
+			}
+			if !b.quiet(2 * time.Second) {
+				run.Violation(run.NextID(), "harness: a backend that closed its connections did not see them end within 2 s", b.url)
+			}
+			// the proxy's end of a reset connection notices on its own time (after a graceful stop it
+			// has closed the connection itself: that is what the backend waited for)
+			if graceful {
+				time.Sleep(30 * time.Millisecond)
+			} else {
+				time.Sleep(150 * time.Millisecond)
+			}
+			lostSince[b.url] = true
+			steps = append(steps, vh.App("XHLose", vh.HxS(b.url)))
+			obs = append(obs, observe())
+			ssample = append(ssample, kind+" "+b.url)
+		}
+		nX := run.Scale(110, 700)
+		xcalls, afterLoss, losses := 0, 0, 0
+		for xcalls < nX {
+			if until := time.Until(t0.Add(time.Duration(ticks+1) * period)); until < 900*time.Millisecond {
+				awaitTick()
+				continue
+			}
+			switch x := xr.Intn(20); {
+			case x < 3 && xcalls > 0:
+				// mostly a backend that has a connection, mostly the one that served last
+				cs := connected()
+				i := xr.Intn(len(backends))
+				if len(cs) > 0 && xr.Intn(5) > 0 {
+					i = cs[xr.Intn(len(cs))]
+					if lastServed >= 0 && xr.Intn(2) == 0 {
+						i = lastServed
+					}
+				}
+				lose(i, xr.Intn(2) == 0)
+				losses++
+				continue
+			case x == 3:
+				curTbl, curTxt = genX()
+				steps = append(steps, vh.App("XH", vh.App("HSetTable", tableCoq(curTbl))))
+				obs = append(obs, observe())
+				ssample = append(ssample, "table")
+				continue
+			}
+			xcalls++
+			res, ok := doOne(xr, callers[xr.Intn(len(callers))], curTbl, curTxt, map[string]bool{}, xcalls, "")
+			if !ok {
+				continue
+			}
+			hchosen := "HNobody"
+			class := "reconnect-history-" + res.class
+			if res.chosen != "" {
+				hchosen = vh.App("HBackend", vh.HxS(res.chosen))
+				if lostSince[res.chosen] {
+					class = "reconnect-after-loss-" + res.class
+					afterLoss++
+					delete(lostSince, res.chosen)
+				}
+				for i, b := range backends {
+					if b.url == res.chosen {
+						lastServed = i
+					}
+				}
+			} else if len(lostSince) > 0 && res.cv.code == uint32(codes.Unavailable) {
+				class = "reconnect-after-loss-" + res.class
+			}
+			steps = append(steps, vh.App("XH", vh.App("HCall", res.mdT, res.upT, hchosen)))
+			obs = append(obs, observe())
+			ssample = append(ssample, fmt.Sprintf("call->%s", res.chosen))
+			run.Add(class, vh.App("CCall", tableCoq(curTbl), vh.Bool(noglob), vh.Bool(false), downTerm, res.ciTerm, hchosen, res.bvT, cviewCoq(res.cv)), res.sample)
+		}
+		// the end: one connected backend loses its connection and leaves the table together with
+		// the others, except one; the next real tick drops their channels (one without a transport)
+		endTxt := ""
+		if cs := connected(); len(cs) > 0 {
+			k := xr.Intn(len(cs))
+			lose(cs[k], xr.Intn(2) == 0)
+			losses++
+			if len(cs) > 1 {
+				// a third one stays: its channel and its connection survive the tick
+				endTxt = fmt.Sprintf("route add keep / %s opts \"proto=grpc\"\n", backends[cs[(k+1)%len(cs)]].url)
+			}
+		}
+		curTbl = setTable(endTxt)
+		steps = append(steps, vh.App("XH", vh.App("HSetTable", tableCoq(curTbl))))
+		obs = append(obs, observe())
+		awaitTick()
+		tickTerm = "HTick"
+		run.Notes["reconnect_calls"] = xcalls
+		run.Notes["reconnect_losses"] = losses
+		run.Notes["reconnect_calls_reaching_a_backend_after_its_loss"] = afterLoss
+		run.Add("session-backends-lose-connections", vh.App("CHistoryX", vh.Bool(noglob), vh.Bool(false), downTerm, vh.List(steps), vh.List(obs)),
+			map[string]interface{}{"steps": len(steps), "losses": losses, "calls_after_loss": afterLoss, "first": ssample[:min(len(ssample), 60)]})
+	}
+
 	// the TLS listener: its tls.Config is what the director's pool gets, so grpcs targets are
 	// dialled with TLS there; plain and TLS backends behind it
 	for i := 0; i < run.Scale(40, 300); i++ {
@@ -1578,7 +1817,7 @@ func session(run *vh.Run, r *rand.Rand, backends []*backend, tlsBackend *backend
 		}
 		txt := sb.String()
 		tbl := setTable(txt)
-		res, ok := doOne(tlsCaller, tbl, txt, map[string]bool{}, i, "")
+		res, ok := doOne(r, tlsCaller, tbl, txt, map[string]bool{}, i, "")
 		if !ok {
 			continue
 		}
